@@ -870,6 +870,11 @@ protected:
 		arraySize = static_cast<uint32_t>(refs.size());
 	}
 
+	uint32_t CountValidRefs() const {
+		return static_cast<uint32_t>(
+			std::count_if(refs.begin(), refs.end(), [](const NiBlockRef<T>& r) { return !r.IsEmpty(); }));
+	}
+
 public:
 	using iterator = typename std::vector<NiBlockRef<T>>::iterator;
 	using const_iterator = typename std::vector<NiBlockRef<T>>::const_iterator;
@@ -894,8 +899,18 @@ public:
 	}
 
 	void Sync(NiStreamReversible& stream) override {
-		if (stream.GetMode() == NiStreamReversible::Mode::Writing)
-			CleanInvalidRefs();
+		if (stream.GetMode() == NiStreamReversible::Mode::Writing && !keepEmptyRefs) {
+			// Write only the valid refs. The array itself is left as it is,
+			// so that saving doesn't alter the block (and what is saved next time).
+			uint32_t validSize = CountValidRefs();
+			stream.Sync(validSize);
+
+			for (auto& r : refs)
+				if (!r.IsEmpty())
+					r.Sync(stream);
+
+			return;
+		}
 
 		stream.Sync(arraySize);
 		refs.resize(arraySize);
@@ -958,8 +973,17 @@ public:
 	using base::refs;
 
 	void Sync(NiStreamReversible& stream) override {
-		if (stream.GetMode() == NiStreamReversible::Mode::Writing)
-			base::CleanInvalidRefs();
+		if (stream.GetMode() == NiStreamReversible::Mode::Writing && !base::keepEmptyRefs) {
+			// Write only the valid refs, without altering the array itself
+			uint32_t validSize = base::CountValidRefs();
+			stream.Sync(reinterpret_cast<char*>(&validSize), 2);
+
+			for (auto& r : refs)
+				if (!r.IsEmpty())
+					r.Sync(stream);
+
+			return;
+		}
 
 		stream.Sync(reinterpret_cast<char*>(&arraySize), 2);
 		refs.resize(arraySize);
